@@ -62,7 +62,7 @@ def _setup():
     return _state
 
 
-TLEN = 80  # fixed table length (one jit cache entry)
+TLEN = 160  # fixed table length (one jit cache entry)
 # How the scripted ranks become loss values (base, scale): the order is the same, the float64 values are exact, but under the
 # last two neighbouring losses differ by less than float32 resolution (seeded change C16f located the minimum in single precision)
 SPACINGS = [(0.0, 1.0), (1.0, 2.0 ** -40), (2.0 ** 25, 1.0), (-1.0, 1.0), (-2.0, 1.0)]  # the last two: a loss of exactly 0.0 (the minimum / the runner-up) and negative losses (seeded change C16g treated a best loss of 0.0 as unset)
@@ -212,7 +212,8 @@ def run(ctx):
             elif not ctx.quick and L >= 6:  # 720 histories x 98 settings: sample a quarter (the full product takes ~50 min)
                 grid = [g for g in grid if r.random() < 0.25]
         elif kind == "verylong":
-            grid = [(int(r.integers(28, 40)), L, bool(r.integers(0, 2))) for _ in range(2)]
+            # patience in the thirties and above one hundred (seeded changes C16e / C16i looked at the last 32 / 100 losses only)
+            grid = [(int(r.integers(28, 40)), L, bool(r.integers(0, 2))), (int(r.integers(99, 115)), L, bool(r.integers(0, 2)))]
         else:
             grid = [(int(r.integers(0, 5)), int(r.integers(0, L + 1)), bool(r.integers(0, 2))) for _ in range(3)]
         for P, m, rb in grid:
